@@ -25,6 +25,9 @@ fn lookup(cmd: &str) -> Option<CaseFn> {
         "c11w" => cases::sched::c11w,
         "c11c" => cases::sched::c11c,
         "c13" => cases::refuse::c13,
+        "c15m" => cases::signal::c15m,
+        "c15f" => cases::signal::c15f,
+        "c17l" => cases::signal::c17l,
         "c19g" => cases::asql::c19g,
         "c19t" => cases::asql::c19t,
         "c19x" => cases::asql::c19x,
